@@ -523,7 +523,7 @@ _MPR = Harness('''
 class MultiPortReceive(Contract):
     key = 'C11.MultiPort._receive'
     target = P + 'MultiPort._receive'
-    properties = ('C11',)
+    properties = ('C11', 'C10')      # C10: everything polled goes to the END of the port's queue (nothing overtakes queued messages)
     configs = tuple({'block': b, 'pend': pq, 'closed1': c} for b in (False, True) for pq in ((0, 0), (2, 1), (0, 3)) for c in (False, True))
     loops = {(P + 'multi_receive', 0): _OnePass()}
     raises = {}
@@ -565,6 +565,8 @@ class MultiPortReceive(Contract):
         flat1 = [m for p in want_sets for m in p]
         flat2 = [m for p in reversed(want_sets) for m in p]
         return {'returns': True, 'never-sleeps': len(log_of(h, 'sleep')) == 0,
+                # receive() hands a message returned by _receive() out BEFORE the queued ones: a fan-in port must queue everything
+                'returns-None-so-nothing-overtakes-the-queue': r is None,
                 'every-pending-message-of-every-open-port-collected-per-port-in-order': q == flat1 or q == flat2}
 
 
@@ -592,7 +594,7 @@ class MultiReceiveSelfClosing(Contract):
     message taken in is handed out, in per-port order; ports that were closed before are not polled"""
     key = 'C11.multi_receive-drains-self-closing-ports'
     target = P + 'multi_receive'
-    properties = ('C11', 'C18')
+    properties = ('C11', 'C18', 'C10')
     configs = tuple({'how': how, 'taken': t, 'pending': pq} for how in ('multi_receive', 'MultiPort._receive', 'MultiPort.poll')
                     for t in ((0, 2), (3, 1), (2, 0), (1, 1)) for pq in (0, 2))
     raises = {}
